@@ -204,13 +204,6 @@ theorem viewport_stroke_effect_differs :
 
 /-! ### inserting a no-op layer anywhere -/
 
-theorem applyFxList_append (B : Mode → Color → Color → Color) (force : Bool) (V : Rect) (x y : Int) (st : PState)
-    (a b : List FxNode) :
-    applyFxList B force V x y st (a ++ b) = applyFxList B force V x y (applyFxList B force V x y st a) b := by
-  induction a generalizing st with
-  | nil => simp [applyFxList]
-  | cons n a ih => simp only [List.cons_append, applyFxList]; exact ih _
-
 /-- **Inserting a no-op layer anywhere in an effect-carrying stack changes nothing observable**: if the layer leaves the
 state it meets indistinguishable (hidden: `hidden_noop_fx`; outside: `outside_viewport_noop_fx`; an adjustment layer:
 `adjustment_noop`; not covering the pixel: `outside_pixel_is_noop_fx`; transparent there: `transparent_noop_fx`), the whole
